@@ -118,4 +118,136 @@ pub fn var_lookup_5<S: Src>(s: &mut S) { var_lookup::<S, 5>(s) }
 pub fn var_lookup_6<S: Src>(s: &mut S) { var_lookup::<S, 6>(s) }
 pub fn var_lookup_7<S: Src>(s: &mut S) { var_lookup::<S, 7>(s) }
 
+// ---------------------------------------------------------------- native-only contract bodies on the public API (bounded)
+// Executed by `exmex_replay --exhaust`; never run under Kani (parse / DeepEx are out of CBMC's reach).
+#[cfg(not(kani))]
+mod api {
+    use crate::src::Src;
+    use exmex::prelude::*;
+    use exmex::verif_hooks::*;
+    use exmex::{DeepEx, ExResult, FlatEx};
+
+    /// name collection beyond the inline capacity of the name SmallVec (16): 20 distinct names in a scrambled
+    /// order, followed by 3 enumerated tokens (one of the 20 names or a number)
+    pub fn var_lookup_spill<S: Src>(s: &mut S) {
+        const NAMES: [&str; 20] = ["n07", "n19", "n00", "n12", "n03", "n16", "n09", "n01", "n18", "n05", "n14", "n02", "n11", "n17", "n04", "n08", "n15", "n06", "n13", "n10"];
+        let keep = 15 + s.choice(6) as usize; // 15..=20 distinct names before the enumerated tail
+        let mut toks: Vec<ParsedToken<'static, i32>> = vec![];
+        let mut used: Vec<&'static str> = vec![];
+        for nm in NAMES.iter().take(keep) { toks.push(ParsedToken::Var(nm)); used.push(nm); }
+        for _ in 0..3 {
+            let c = s.choice(21) as usize;
+            if c == 20 { toks.push(ParsedToken::Num(1)); } else { toks.push(ParsedToken::Var(NAMES[c])); used.push(NAMES[c]); }
+        }
+        let vars = find_parsed_vars(&toks);
+        let mut expect: Vec<&str> = used.clone();
+        expect.sort();
+        expect.dedup();
+        assert!(vars.len() == expect.len() && vars.iter().zip(expect.iter()).all(|(a, b)| a == b), "C04 the variables are the distinct names in Rust string order (also beyond 16 names)");
+        for (i, nm) in expect.iter().enumerate() {
+            assert!(find_var_index(nm, &vars) == i, "C04 a name is looked up at its position in the sorted list");
+        }
+    }
+
+    fn sum_expr(n: usize) -> String {
+        if n == 0 { return "7".to_string(); }
+        (0..n).map(|i| format!("{{v{:02}}}*{}", i, i + 1)).collect::<Vec<_>>().join("+")
+    }
+    /// arity of every evaluation entry point on real parsed expressions with n variables, n around the inline
+    /// capacity, called with m = 0..=n+2 values: eval / eval_vec / eval_iter are errors iff m != n, eval_relaxed
+    /// iff m < n; an Ok result binds the i-th value to the i-th name
+    pub fn arity_api<S: Src>(s: &mut S) {
+        const NS: [usize; 8] = [0, 1, 2, 3, 15, 16, 17, 18];
+        let n = NS[s.choice(8) as usize];
+        let m = s.range_usize(0, n + 2);
+        let deep = s.bool();
+        let text = sum_expr(n);
+        let vals: Vec<f64> = (0..m).map(|i| (i as f64) * 0.5 + 1.0).collect();
+        let expect: f64 = if n == 0 { 7.0 } else { (0..n.min(m)).map(|i| ((i as f64) * 0.5 + 1.0) * (i as f64 + 1.0)).sum() };
+        let ok = |r: &ExResult<f64>| matches!(r, Ok(v) if (*v - expect).abs() < 1e-9);
+        if deep {
+            let ex = DeepEx::<f64>::parse(&text).unwrap();
+            assert!(ex.var_names().len() == n, "C04 the variables are the distinct names");
+            let (r, rr) = (ex.eval(&vals), ex.eval_relaxed(&vals));
+            assert!(if m == n { ok(&r) } else { r.is_err() }, "C04 eval with the wrong number of values is an error, with the right number the n-th value is bound to the n-th name (deep form)");
+            assert!(if m >= n { ok(&rr) } else { rr.is_err() }, "C04 eval_relaxed ignores surplus values and rejects too few (deep form)");
+        } else {
+            let ex = FlatEx::<f64>::parse(&text).unwrap();
+            assert!(ex.var_names().len() == n, "C04 the variables are the distinct names");
+            let (r, rr, rv, ri) = (ex.eval(&vals), ex.eval_relaxed(&vals), ex.eval_vec(vals.clone()), ex.eval_iter(vals.iter().copied()));
+            assert!(if m == n { ok(&r) } else { r.is_err() }, "C04 eval with the wrong number of values is an error, with the right number the n-th value is bound to the n-th name");
+            assert!(if m >= n { ok(&rr) } else { rr.is_err() }, "C04 eval_relaxed ignores surplus values and rejects too few");
+            assert!(if m == n { ok(&rv) } else { rv.is_err() }, "C04 eval_vec with the wrong number of values is an error");
+            assert!(if m == n { ok(&ri) } else { ri.is_err() }, "C04 eval_iter with the wrong number of values is an error");
+        }
+    }
+
+    /// derived expressions: operator application lists the sorted union of the names involved, a derivative exactly
+    /// those of its antiderivative; the derived expression keeps the arity guards
+    pub fn derived_names<S: Src>(s: &mut S) {
+        const EX: [&str; 8] = ["0", "1", "x+{y}", "m", "a+z", "{v 1}*b", "0*q", "sin(x)*x"];
+        const OPS: [&str; 4] = ["+", "-", "*", "/"];
+        let (ia, ib) = (s.choice(10) as usize, s.choice(10) as usize);
+        let mk = |i: usize| -> DeepEx<'static, f64> { if i == 8 { DeepEx::zero() } else if i == 9 { DeepEx::one() } else { DeepEx::parse(EX[i]).unwrap() } };
+        let (a, b) = (mk(ia), mk(ib));
+        let mut expect: Vec<String> = a.var_names().iter().chain(b.var_names().iter()).cloned().collect();
+        expect.sort();
+        expect.dedup();
+        let op = OPS[s.choice(4) as usize];
+        // reference value: both operands evaluated separately, values picked BY NAME
+        let value_of = |name: &String| 1.0 + expect.iter().position(|n| n == name).unwrap() as f64 * 0.5;
+        let av: Vec<f64> = a.var_names().iter().map(value_of).collect();
+        let bv: Vec<f64> = b.var_names().iter().map(value_of).collect();
+        let (x, y) = (a.eval(&av).unwrap(), b.eval(&bv).unwrap());
+        let reference = match op { "+" => x + y, "-" => x - y, "*" => x * y, _ => x / y };
+        let all: Vec<f64> = expect.iter().map(value_of).collect();
+        let via = s.choice(3); // 0: FlatEx::operate_binary, 1: DeepEx::operate_binary, 2: DeepEx's std operators + - * /
+        let (names, r_few, r_exact): (Vec<String>, bool, ExResult<f64>) = if via == 0 {
+            let (fa, fb) = (FlatEx::<f64>::from_deepex(a).unwrap(), FlatEx::<f64>::from_deepex(b).unwrap());
+            let c = fa.operate_binary(fb, op).unwrap();
+            let n = c.var_names().len();
+            (c.var_names().to_vec(), n == 0 || c.eval_relaxed(&vec![1.5; n - 1]).is_err(), c.eval(&all))
+        } else {
+            let c = if via == 1 { a.operate_binary(b, op).unwrap() } else { match op { "+" => (a + b).unwrap(), "-" => (a - b).unwrap(), "*" => (a * b).unwrap(), _ => (a / b).unwrap() } };
+            let n = c.var_names().len();
+            (c.var_names().to_vec(), n == 0 || c.eval_relaxed(&vec![1.5; n - 1]).is_err(), c.eval(&all))
+        };
+        assert!(names == expect, "C04 a derived expression (operator application) lists the sorted union of the names involved");
+        assert!(r_few, "C04 the relaxed variant rejects too few values (derived expression)");
+        match r_exact {
+            // (a non-finite reference — 0/0, x/0 — is left unspecified: the symbolic shortcuts for 0 and 1 may simplify it)
+            Ok(v) => assert!(!reference.is_finite() || (v - reference).abs() <= 1e-9 * (1.0 + reference.abs()),
+                "C04 in a derived expression the n-th passed value is bound to the n-th name at every occurrence"),
+            Err(_) => assert!(false, "C04 evaluation with the documented number of values succeeds (derived expression)"),
+        }
+    }
+    /// a derivative lists exactly the names of its antiderivative and keeps the arity guards, also when a variable vanished
+    pub fn derivative_names<S: Src>(s: &mut S) {
+        const EX: [&str; 6] = ["x*y+z", "a+sin(b)", "x", "exp(x)+y", "{v 1}*{v 0}-{v 0}", "x*x*y"];
+        let text = EX[s.choice(6) as usize];
+        let deep = s.bool();
+        let ex = DeepEx::<f64>::parse(text).unwrap();
+        let names = ex.var_names().to_vec();
+        let n = names.len();
+        let i = s.range_usize(0, n - 1);
+        let j = s.range_usize(0, n - 1);
+        if deep {
+            let d = ex.partial(i).unwrap().partial(j).unwrap();
+            assert!(d.var_names() == &names[..], "C04 a derivative lists exactly the names of its antiderivative");
+            assert!(d.eval(&vec![1.5; n]).is_ok() && d.eval(&vec![1.5; n + 1]).is_err() && d.eval(&vec![1.5; n - 1]).is_err(), "C04 evaluation with the wrong number of values is an error (derivative, deep form)");
+            assert!(d.eval_relaxed(&vec![1.5; n + 1]).is_ok() && d.eval_relaxed(&vec![1.5; n - 1]).is_err(), "C04 the relaxed variant ignores surplus values and rejects too few (derivative, deep form)");
+        } else {
+            let d = FlatEx::<f64>::parse(text).unwrap().partial(i).unwrap().partial(j).unwrap();
+            assert!(d.var_names() == &names[..], "C04 a derivative lists exactly the names of its antiderivative");
+            assert!(d.eval(&vec![1.5; n]).is_ok() && d.eval(&vec![1.5; n + 1]).is_err() && d.eval(&vec![1.5; n - 1]).is_err(), "C04 evaluation with the wrong number of values is an error (derivative)");
+            assert!(d.eval_relaxed(&vec![1.5; n + 1]).is_ok() && d.eval_relaxed(&vec![1.5; n - 1]).is_err(), "C04 the relaxed variant ignores surplus values and rejects too few (derivative)");
+        }
+    }
+}
+#[cfg(not(kani))]
+pub use api::{arity_api, derivative_names, derived_names, var_lookup_spill};
+
+#[cfg(not(kani))]
+registry!("c04", var_lookup_spill, arity_api, derived_names, derivative_names, var_lookup_3, var_lookup_5, var_lookup_6, var_lookup_7, var_lookup_probe, arity_eval, arity_eval_relaxed, arity_eval_vec_1, arity_eval_vec_2, arity_eval_vec_3, arity_eval_iter_1, arity_eval_iter_2, arity_eval_iter_3);
+#[cfg(kani)]
 registry!("c04", var_lookup_3, var_lookup_5, var_lookup_6, var_lookup_7, var_lookup_probe, arity_eval, arity_eval_relaxed, arity_eval_vec_1, arity_eval_vec_2, arity_eval_vec_3, arity_eval_iter_1, arity_eval_iter_2, arity_eval_iter_3);
